@@ -325,14 +325,16 @@ class SynthBase(testtools.TestCase):
     def __init__(self, env, method="test_body"):
         super().__init__(method)
         self.env = env
-        # user-inserted handlers: front (takes precedence) and behind Exception (never fires)
-        self.exception_handlers.insert(0, (Sub3, _sub3_handler))
-        self.exception_handlers.insert(0, (Base3, _custom_handler))
-        self.exception_handlers.insert(0, (CustomExc, _custom_handler))
         if env.prog.get("preforce"):
             self.force_failure = True
-        self.exception_handlers.append((Custom2Exc, _custom2_handler))
         if env.prog["onexc"]:
+            # the customised instance: user-inserted handlers at the front (take precedence) and behind Exception
+            # (never fires), and an addOnException handler.  A pristine instance (onexc false) inserts nothing:
+            # for it the custom classes are plain Exceptions, whatever its siblings inserted
+            self.exception_handlers.insert(0, (Sub3, _sub3_handler))
+            self.exception_handlers.insert(0, (Base3, _custom_handler))
+            self.exception_handlers.insert(0, (CustomExc, _custom_handler))
+            self.exception_handlers.append((Custom2Exc, _custom2_handler))
             self.addOnException(self._on_exception)
 
     def _on_exception(self, exc_info):
@@ -374,7 +376,7 @@ class SynthBase(testtools.TestCase):
         env.epoch += 1
         env.current_unit = unit
         upcalled = False
-        if unit == "setUp":
+        if unit == "setUp" and env.prog["onexc"]:
             # "This list is able to be modified at any time": a handler inserted while the test is running
             self.exception_handlers.insert(0, (Custom4Exc, _custom_handler))
 
